@@ -435,6 +435,13 @@ class Interp(Engine):
             n = conc_int(st[1])
             if n is not None:
                 return [self.list_get(v, z3.IntVal(i), check=False) for i in range(n)]
+            K = getattr(self.sh, "refute_bound", 0)
+            if K and not self.in_quant:
+                # bounded refutation mode: case split on the length (<= K) so that everything downstream is quantifier free
+                for k in range(K + 1):
+                    if self.branch(st[1] == k):
+                        return [self.list_get(v, z3.IntVal(i), check=False) for i in range(k)]
+                raise PathEnd()
         if isinstance(v, VNative) and isinstance(v.obj, (tuple, list, range, str, bytes, frozenset, set, dict)) or (
             isinstance(v, VNative) and isinstance(v.obj, type) and issubclass(v.obj, enum.Enum)
         ):
@@ -836,6 +843,11 @@ class Interp(Engine):
         if ext is not None:
             return ext(self, args, kwargs)
         callee_contract = self.registry.by_fn.get(id(fn_u))
+        if self.in_clause and callee_contract is not None and not callee_contract.modifies and not callee_contract.modifies_maps \
+                and not callee_contract.modifies_lists:
+            # a clause that mentions a (side-effect free) repo function means the function itself: evaluate its real body, so that
+            # two mentions denote the same value; what that value is, is pinned down by the callee's own verified contract
+            force_inline = True
         if (
             callee_contract is not None and not force_inline and callee_contract is not self.contract
             and callee_contract.key not in self.contract.inline and not callee_contract.always_inline
@@ -873,6 +885,17 @@ class Interp(Engine):
         self.sh.modular.add(c.key)
         code_env = env
         env = self.clause_env(env)
+        # ghost parameters of the callee (declared in its variant types but not in its signature): its proof holds for ALL
+        # their values, so the caller may assume each postcondition universally quantified over them
+        sig_names = {a.arg for a in src.node.args.posonlyargs + src.node.args.args + src.node.args.kwonlyargs}
+        ghost_syms = []
+        vt0 = next(iter(c.variants.values()), {})
+        for gname, gT in vt0.items():
+            if gname not in sig_names and gname not in env:
+                gv = self.fresh(gT, "%s.ghost.%s" % (c.key, gname))
+                env[gname] = gv
+                if isinstance(gv, VInt):
+                    ghost_syms.append(gv.t)
         fr = Frame(fn, src, env, dict(fn.__globals__))
         self.frames.append(fr)
         saved_clause = self.in_clause
@@ -902,6 +925,10 @@ class Interp(Engine):
                 self.in_clause = True
                 self.contract = c
                 for i, cl in enumerate(c.requires):
+                    if any(gn in cl for gn in vt0 if gn not in sig_names):
+                        self.sh.assumed = getattr(self.sh, "assumed", set())
+                        self.sh.assumed.add("call of %s: existence of ghost witness for requires %r not checked at the call site" % (c.key, cl[:80]))
+                        continue
                     g = self.truth(self.eval_clause(cl))
                     self.contract = saved_contract
                     self.in_clause = saved_clause
@@ -956,7 +983,13 @@ class Interp(Engine):
                 for gname, gT in c.ghost_results.items():
                     env[gname] = self.fresh(gT, "%s.%s" % (c.key, gname))
                 for cl in c.ensures:
-                    self.assume(self.truth(self.eval_clause(cl)))
+                    t = self.truth(self.eval_clause(cl))
+                    if ghost_syms:
+                        from z3 import z3util
+                        used = [g for g in ghost_syms if any(g.eq(v) for v in z3util.get_vars(t))]
+                        if used:
+                            t = z3.ForAll(used, t)
+                    self.assume(t)
                 return res
             finally:
                 self.contract = saved_contract
@@ -1534,7 +1567,15 @@ class Interp(Engine):
                 c = self.truth(self.ev(node.test))
                 cb = conc_bool(c)
                 if cb is None:
-                    raise Unsupported("while loop #%s (line %d) needs an invariant" % (o, node.lineno))
+                    K = getattr(self.sh, "refute_bound", 0)
+                    if not K:
+                        raise Unsupported("while loop #%s (line %d) needs an invariant" % (o, node.lineno))
+                    # bounded refutation mode: follow at most K iterations, drop executions that need more
+                    if n >= K:
+                        if self.branch(c):
+                            raise PathEnd()
+                        return
+                    cb = self.branch(c)
                 if not cb:
                     return
                 n += 1
@@ -1570,7 +1611,25 @@ class Interp(Engine):
                 items = self.iter_values(it)
             except ValueError:
                 if spec is None:
-                    raise Unsupported("for loop #%s (line %d) over symbolic iterable needs an invariant" % (o, node.lineno))
+                    K = getattr(self.sh, "refute_bound", 0)
+                    if not K:
+                        raise Unsupported("for loop #%s (line %d) over symbolic iterable needs an invariant" % (o, node.lineno))
+                    # bounded refutation mode: executions with at most K iterations of this loop
+                    n, getter = self.sym_iter(it)
+                    k = 0
+                    while True:
+                        if not self.branch(n > k):
+                            return
+                        if k >= K:
+                            raise PathEnd()
+                        self.assign_target(node.target, getter(z3.IntVal(k)))
+                        k += 1
+                        try:
+                            self.exec_block(node.body)
+                        except BreakSignal:
+                            return
+                        except ContinueSignal:
+                            continue
                 items = None
             if items is not None:
                 for x in items:
@@ -2081,6 +2140,16 @@ def _sorted(self, args, kw):
     v = self.force(args[0])
     if kw:
         raise Unsupported("sorted with key/reverse")
+    if getattr(self.sh, "refute_bound", 0) and isinstance(v, (VList, VTuple)):
+        # bounded refutation mode: concrete insertion sort, one case split per comparison (stable, like list.sort)
+        items = self.iter_concrete(v)
+        out = []
+        for x in items:
+            pos = len(out)
+            while pos > 0 and self.branch(self.compare("<", x, out[pos - 1]).t):
+                pos -= 1
+            out.insert(pos, x)
+        return self.new_list(out)
     if isinstance(v, VList):
         st = self._lst(v)
         if st[0] == "conc" and len(st[1]) <= 1:
@@ -2309,10 +2378,13 @@ def _sorted_axiom(self, st):
     j = z3.Int(self.fresh_name("j"))
     k = z3.Int(self.fresh_name("k"))
     inr = lambda x: z3.And(x >= 0, x < n)
+    self.memo["last_sorted_perm"] = (f, g)
     if self.contract.sorted_mode != "insertion":
-        self.assume(z3.ForAll([j], z3.Implies(inr(j), z3.And(inr(f(j)), g(f(j)) == j))))
-        self.assume(z3.ForAll([j], z3.Implies(inr(j), z3.And(inr(g(j)), f(g(j)) == j))))
-        self.assume(z3.ForAll([j], z3.Implies(inr(j), z3.And([z3.Select(b, j) == z3.Select(a, f(j)) for a, b in zip(st[2], arrs)]))))
+        # permutation: out[j] == in[f(j)], in[i] == out[g(i)], f and g mutually inverse on [0, n); triggers on the element reads
+        self.assume(z3.ForAll([j], z3.Implies(inr(j), z3.And([inr(f(j)), g(f(j)) == j] + [z3.Select(b, j) == z3.Select(a, f(j)) for a, b in zip(st[2], arrs)])),
+                              patterns=[z3.Select(arrs[0], j)]))
+        self.assume(z3.ForAll([j], z3.Implies(inr(j), z3.And([inr(g(j)), f(g(j)) == j] + [z3.Select(b, g(j)) == z3.Select(a, j) for a, b in zip(st[2], arrs)])),
+                              patterns=[z3.Select(st[2][0], j)]))
     loc = self.new_loc()
     self.lists[loc] = ["sym", n, arrs, elemT]
     out = VList(loc)
@@ -2445,3 +2517,19 @@ import typing as _typing  # noqa: E402
 @builtin(_typing.cast)
 def _cast(self, args, kw):
     return args[1]
+
+
+@builtin(_c.sorted_perm)
+def _sorted_perm(self, args, kw):
+    if "last_sorted_perm" not in self.memo:
+        raise Unsupported("sorted_perm: no symbolic sorted() call on this path")
+    f, g = self.memo["last_sorted_perm"]
+    return VInt(f(self.as_int(self.force(args[0])).t))
+
+
+@builtin(_c.sorted_perm_inv)
+def _sorted_perm_inv(self, args, kw):
+    if "last_sorted_perm" not in self.memo:
+        raise Unsupported("sorted_perm_inv: no symbolic sorted() call on this path")
+    f, g = self.memo["last_sorted_perm"]
+    return VInt(g(self.as_int(self.force(args[0])).t))
